@@ -36,6 +36,10 @@ class ClockError(Exception):
     pass
 
 
+class InjectedFault(Exception):
+    """raised by a generated state function when the script says so"""
+
+
 def ticks(x):
     v = x * 64
     r = round(v)
@@ -207,6 +211,12 @@ class Machine:
         self.emit(self.pending)
         self.pending = None
         self.depth += 1
+        try:
+            self.in_state_actions(name)
+        finally:
+            self.depth -= 1
+
+    def in_state_actions(self, name):
         # a state function may perform several actions (next_state, done, engage, next_state_now ...) before it returns
         for _ in range(4):
             act = self.script.in_state(self, name)
@@ -218,8 +228,15 @@ class Machine:
                 self.emit(act)
             elif k == "nsnow":
                 self.pending = act
-                before = len(self.steps)
-                self.sm.next_state_now(self.ref(act["s"]))
+                try:
+                    self.sm.next_state_now(self.ref(act["s"]))
+                except InjectedFault as f:
+                    if not f.args[0]["caught"] or f.args[0].get("done"):
+                        raise
+                    # this state function catches what the state it entered through next_state_now() raised
+                    f.args[0]["done"] = True
+                    self.emit(dict(f.args[0]["ev"], depth=self.depth + 1))
+                    continue
                 if self.pending is not None:      # nested execute() called no state function
                     self.emit(self.pending)
                     self.pending = None
@@ -234,17 +251,23 @@ class Machine:
                 init = None if act["init"] == "none" else self.ref(act["init"])
                 self.sm.engage(initial_state=init, force=act["force"])
                 self.emit(act)
-        self.depth -= 1
+            elif k == "raise":
+                raise InjectedFault({"caught": bool(act["caught"]) and self.depth > 1, "ev": act})
 
     def run_iteration(self, ev):
         """execute() or on_iteration(): the step is completed by the first state function call"""
         self.pending = ev
         self.stopped_in_iter = False
         n0 = len(self.steps)
-        if ev["e"] == "execute":
-            self.sm.execute()
-        else:
-            self.sm.on_iteration(0.0)
+        try:
+            if ev["e"] == "execute":
+                self.sm.execute()
+            else:
+                self.sm.on_iteration(0.0)
+        except InjectedFault as f:
+            # the exception left the outermost execute() / on_iteration()
+            self.emit({"e": "raise", "caught": False, "depth": f.args[0]["ev"].get("depth", 1)})
+            return
         if self.pending is not None:
             self.emit(self.pending)
             self.pending = None
@@ -337,6 +360,9 @@ class RandomSource:
                 elif r < 0.08:
                     on = False
                     yield {"e": "adisable"}
+                elif r < 0.11:
+                    on = False
+                    yield {"e": "done"}
                 elif r < 0.30:
                     yield {"e": "tick", "d": rng.choice([0, 1, 1, 2, 3, 5, 8, 13])}
                 elif r < 0.34 and self.timed:
@@ -395,6 +421,8 @@ class RandomSource:
         if r < 0.46 and not self.shape["auto"]:
             return {"e": "engage", "init": rng.choice(self.nondef) if rng.random() < 0.3 else "none",
                     "force": rng.random() < 0.4}
+        if r < 0.50:
+            return {"e": "raise", "caught": rng.random() < 0.5}
         return None
 
     def consume_ret(self):
@@ -414,7 +442,7 @@ class ScriptSource:
         while self.i < len(self.ev):
             e = self.ev[self.i]
             self.i += 1
-            if e.get("depth", 0) > 0 or e["e"] in ("ns", "nsnow", "ret"):
+            if e.get("depth", 0) > 0 or e["e"] in ("ns", "nsnow", "ret", "raise"):
                 self.skipped += 1     # the implementation did not call the state function the spec expected
                 continue
             yield {k: v for k, v in e.items() if k != "depth"}
@@ -422,7 +450,7 @@ class ScriptSource:
     def in_state(self, m, name):
         if self.i < len(self.ev):
             e = self.ev[self.i]
-            if e.get("depth", 0) == m.depth and e["e"] in ("ns", "nsnow", "done", "engage"):
+            if e.get("depth", 0) == m.depth and e["e"] in ("ns", "nsnow", "done", "engage", "raise"):
                 self.i += 1
                 return {k: v for k, v in e.items() if k != "depth"}
         return None
